@@ -10,7 +10,7 @@ T = {
         "explicit-state enumeration of the received-set lattice on the real decoder"),
 "C02": ("The implementation's whole generator matrix is read back (basis-in-slots data for [1..64]^2 / [1..130]^2, unit vectors for a grid up to 4097 (8193) and for envelope configurations) and compared entry by entry with the closed form of the property computed by an independent field implementation; ancestor crate reed-solomon-16 as second oracle; every recovery byte of dense shards with short final blocks and of long shards (to 16 KiB, thorough 64 KiB), two rounds per encoder, against G*data. Per configuration the comparison is total (the matrix is the function).",
         "small-scope exhaustive enumeration against a closed-form oracle"),
-"C03": ("Every engine against Naive: every truncated_size of every power-of-two size up to 2^10 (2^12), every size class up to 2^16 at 6 truncated sizes, 8 skew offsets, 2 positions, 1-3 and 65/130/257 blocks; every log_m for mul; indicator families for eval_poly; encode + every exactly-k received-set end to end; guard shards unchanged.",
+"C03": ("Every engine against Naive: every truncated_size of every power-of-two size up to 2^10 (2^12), every size class up to 2^16 at 6 truncated sizes, 8 skew offsets, 2 positions, 1-3 and 65/130/257 blocks; every log_m for mul; sparse and identical-shard inputs; indicator families for eval_poly; encode + every exactly-k received-set end to end; guard shards unchanged.",
         "small-scope exhaustive enumeration of primitive arguments, differential between engines"),
 "C04": ("Every even shard size 2..132 (thorough ..260) plus big sizes (1022..131138 bytes, values that do not fit 16 bits, block counts with remainders), configurations on the edge of the envelope with short final blocks, every single missing original of mid-size configurations, and calls carrying several MiB: lengths, slots re-coded alone as 2-byte shards, G*data with the documented byte placement, decode patterns; soiled working space puts stale bytes into unused lanes.",
         "small-scope exhaustive enumeration with self-differential and closed-form oracles"),
@@ -28,9 +28,9 @@ T = {
         "small-scope exhaustive enumeration of argument tuples and call pairs, differential against the streaming API"),
 "C11": ("Explicit-state search of the received-set lattice with concrete-state merging: every order of every subset for all (k,r) with k+r<=7 (thorough 10); every state with >= k shards decoded; unmerged cross-checks: all permutations for k+r<=5 (6) and every ordered k- and (k+1)-tuple of shards for skewed configurations such as (3,8), (2,12), (3,17).",
         "explicit-state search with exact state merging, plus unmerged order enumeration"),
-"C12": ("Accessor contracts (index arguments to usize::MAX, iterator order and exhaustion) after every encode and in every decodable received-set for k+r<=5 (7) (surplus sets in two add orders), for every single missing original of mid-size configurations, every ordered pair (triple) of received-sets and 6 consecutive rounds on one object separated only by dropping the result, 6-round histories on configurations up to the whole field, and runs of 1100 (70000) consecutive rounds; checked build.",
+"C12": ("Accessor contracts (index arguments to usize::MAX, iterator order and exhaustion; nth, skip, step_by, count, last, size_hint after every consumed prefix) after every encode and in every decodable received-set for k+r<=5 (7) (surplus sets in two add orders), for every single missing original of mid-size configurations, every ordered pair (triple) of received-sets and 6 consecutive rounds on one object separated only by dropping the result, 6-round histories on configurations up to the whole field, and runs of 1100 (70000) consecutive rounds; checked build.",
         "explicit-state enumeration of result states and round sequences"),
-"C13": ("Oracle-free: zero, every symbol value on every coordinate axis, every weight<=3 combination of basis vectors, every field constant times basis vectors, dense pairs; [1..5]^2 (thorough [1..9]^2 + (33,3),(3,33)) x {high,low} x 5 engines.",
+"C13": ("Oracle-free: zero, every symbol value on every coordinate axis, every weight<=3 combination of basis vectors, every field constant times basis vectors, dense pairs, deltas confined to one 64-byte block of one shard and identical shards against their decomposition (192/200-byte shards); [1..5]^2 (thorough [1..9]^2 + (33,3),(3,33)) x {high,low} x 5 engines.",
         "small-scope exhaustive enumeration of linear relations (oracle-free)"),
 "C14": ("One fresh process per subset of {AVX2,SSSE3} and of {Neon} (ported AArch64 arm): after every operation of an alphabet covering everything built on DefaultEngine the ISA trace must show only the best reported ISA for every primitive, and no evaluation of the shared eval_poly block outside an ISA entry point; results identical under all subsets. The property's whole quantifier is enumerated.",
         "exhaustive enumeration of environment answers (feature masks) with an execution-trace monitor"),
